@@ -3,6 +3,7 @@ package rules
 import (
 	"fmt"
 	"go/token"
+	"sort"
 	"strings"
 
 	"golang.org/x/tools/go/ssa"
@@ -465,7 +466,9 @@ func c13Decide(c *core.Ctx) {
 	edge := func(pred string, want bool) []core.IfEdge {
 		return core.TermEdges(fn, sx, func(s string, _ *core.Term) bool { return s == pred }, want)
 	}
-	either := func(p1 string, w1 bool, p2 string, w2 bool) []core.IfEdge { return append(edge(p1, w1), edge(p2, w2)...) }
+	either := func(p1 string, w1 bool, p2 string, w2 bool) []core.IfEdge {
+		return append(edge(p1, w1), edge(p2, w2)...)
+	}
 	localNil := either("(i.LocalCert == const(nil))", true, "(i.LocalCert != const(nil))", false)
 	localSet := either("(i.LocalCert == const(nil))", false, "(i.LocalCert != const(nil))", true)
 	aggNil := either("("+agg+" == const(nil))", true, "("+agg+" != const(nil))", false)
@@ -548,6 +551,77 @@ func c13Decide(c *core.Ctx) {
 			}
 		}
 		c.Decide(!bad, rule, "statuschecker.(*initialStatus).process#refuses:"+name, edges[0].If.Pos(), "contradiction '"+name+"' always ends in an error")
+	}
+	// a lone pending certificate (nothing local, nothing settled) at a non-zero height that is not InError is never
+	// adopted: recovery waits. Decided by enumerating the branch literals of the paths from the lone-pending region to a
+	// successful return; a literal the rule does not know (e.g. `Height > 1`) is free, so a case that is no longer
+	// exhaustive shows up as a satisfiable path. Unsigned: Height == 0 ⇔ ¬(Height > 0).
+	{
+		var region *ssa.BasicBlock
+		for _, e := range pendSet {
+			to := e.B.Succs[e.Succ]
+			first := to.Instrs[0]
+			if len(localNil) > 0 && len(settledNil) > 0 &&
+				core.ReachableWithout(core.Entry(fn), localNil, func(i ssa.Instruction) bool { return i == first }) == nil &&
+				core.ReachableWithout(core.Entry(fn), settledNil, func(i ssa.Instruction) bool { return i == first }) == nil {
+				region = to
+			}
+		}
+		construct := "statuschecker.(*initialStatus).process#refuses:lone-pending-not-in-error-at-height>0"
+		if region == nil {
+			c.Violate(rule, construct, fn.Pos(), "the lone-pending-certificate case is no longer singled out")
+		} else {
+			const aH0, aHpos, aErr = "(i.PendingCert.Height == const(0))", "(i.PendingCert.Height > const(0))", "(agglayer/types.CertificateStatus).IsInError(i.PendingCert.Status)"
+			forced := map[string]bool{aH0: false, aHpos: true, aErr: false}
+			var witness []string
+			var dfs func(b *ssa.BasicBlock, lits map[string]bool, depth int) bool
+			dfs = func(b *ssa.BasicBlock, lits map[string]bool, depth int) bool {
+				if depth > 80 {
+					return false
+				}
+				last := b.Instrs[len(b.Instrs)-1]
+				switch x := last.(type) {
+				case *ssa.Return:
+					if len(x.Results) == 2 && isNilConst(x.Results[1]) {
+						for k, v := range lits {
+							witness = append(witness, fmt.Sprintf("%s=%v", k, v))
+						}
+						sort.Strings(witness)
+						return true
+					}
+					return false
+				case *ssa.If:
+					cond, pos := core.CondOf(x.Cond)
+					atom := sx.Of(cond).String()
+					for si, succ := range b.Succs {
+						val := (si == 0) == pos
+						if f, ok := forced[atom]; ok && f != val {
+							continue
+						}
+						if prev, ok := lits[atom]; ok && prev != val {
+							continue
+						}
+						n := map[string]bool{}
+						for k, v := range lits {
+							n[k] = v
+						}
+						n[atom] = val
+						if dfs(succ, n, depth+1) {
+							return true
+						}
+					}
+					return false
+				}
+				for _, succ := range b.Succs {
+					if dfs(succ, lits, depth+1) {
+						return true
+					}
+				}
+				return false
+			}
+			found := dfs(region, map[string]bool{}, 0)
+			c.Decide(!found, rule, construct, region.Instrs[0].Pos(), fmt.Sprintf("with nothing local or settled, a pending certificate at height > 0 that is not InError never leads to a successful decision (satisfiable path literals: %v)", witness))
+		}
 	}
 	refuse("agglayer-height-below-local", lower)
 	refuse("same-height-different-id", diffID)
@@ -699,8 +773,8 @@ func c13ReadFaults(c *core.Ctx) {
 
 func init() {
 	register(&Property{
-		ID:    "C13",
-		Level: "other",
+		ID:          "C13",
+		Level:       "other",
 		Explanation: "Decides the structural necessary conditions of crash-safe certificate bookkeeping on every path: C13-pk — certificate_info PRIMARY KEY(height), history PRIMARY KEY(height, retry_count), identical column lists (schema computed from the embedded migrations); C13-replace — every storage function that opens a transaction pairs it, writes only through it and never drops a write error; SaveLastSentCertificate looks the existing record up on the tx by the new height, moves/deletes exactly that record before the insert, aborts on lookup errors; statements of move/delete parsed and bound; C13-first — the send loop starts only after CheckInitialStatus returned, which happens only after a successful reconciliation or cancellation; a contradiction reported by process() executes nothing; C13-recover — the record rebuilt from an Agglayer header takes Height/ID/LERs/Status from the header, FromBlock from the metadata and ToBlock = FromBlock+Offset (V1/V2) or the V0 ToBlock, and is saved through SaveLastSentCertificate; C13-decide — every deciding return of initialStatus.process is matched with its dominating branch facts against the case table (update only for equal ids at equal-or-not-next height; insert only when nothing is local or the Agglayer is exactly one ahead (constant +1); adopt a pending certificate only at height 0; nothing only when both sides are empty or the lone pending is in error at a wrong height) and the three contradictions always end in an error; action dispatch checked. The end-to-end 'submit, crash anywhere, restart, next certificate is right' is not decided. Added after the sub-agent rounds: C13-last (every 'last certificate' reader selects the greatest height; lookups by height are bound to their argument) and C13-read (a failed read is answered as 'no certificate' / not found only for sql.ErrNoRows; updateCertificateStatus reports success only when the statuses were equal or the Agglayer's status was written to the record and stored). Added after round 7: C13-inputs, C13-next (shared with C02-next), the UPDATE of UpdateCertificateStatus sets exactly (status, updated_at) of the row certificate_id unconditionally, (nil, nil) of updateLocalStorageWithAggLayerCert only when there is nothing to rebuild from.",
 		Rules: []Rule{
 			{ID: "C13-last", Floor: 6, Run: c13Last, Text: "SQL: 'the last sent certificate' is the row with the greatest height"},
